@@ -11,3 +11,12 @@ Attrs: TypeAlias = JSONDict
 
 def text_length(text: str) -> int:
     return len(text.encode("utf-16-le", "surrogatepass")) // 2
+
+
+def text_slice(text: str, from_: int, to: int | None = None) -> str:
+    """Slice a string by UTF-16 code units, the unit document positions count in."""
+    data = text.encode("utf-16-le", "surrogatepass")
+    return data[2 * from_ : None if to is None else 2 * to].decode(
+        "utf-16-le",
+        "surrogatepass",
+    )
